@@ -210,3 +210,25 @@ PROPS["C16"] = {'coq': 'Properties/C16.v',
  'assumptions': ['telegrams valid for the encoder: addresses 0..127, SAP/PDU bytes 0..255, length byte <= 249',
                  'fault-free clauses: the bytes seen are the concatenation of the frames; resync clause: the next telegram arrives after the discard',
                  'simulator monotonicity: bus time not before the start of the last transmission and below the u64 overflow point of time_to_bits']}
+
+# TEMPORARY (agent-bus): lets `./check C06` run the bus-level layer on its own.  The integrator adds "bus"
+# to the `domains` of C01 / C02 / C06 / C13 (the driver tags every ORACLE-FAIL with its property id) and
+# moves the theorems of Properties/BusLevel.v into the C01/C02/C06/C13 property files.
+PROPS["C06"] = {'claimed': False,
+ 'coq': 'Properties/BusLevel.v',
+ 'domains': ['bus'],
+ 'nontrivial': ['c01:in-class-traces', 'C02:windows-checked', 'C06:windows-checked', 'c13:traffic-windows', 'c13:idle-windows'],
+ 'rule': 'cases = corpus/bus + generated scenarios (2..5 real FdlActiveStations on the harness medium: cold start together / lock-step / '
+         'joining an active bus / several joiners / staggered starts provoking the excluded claim race / applications of every appetite with '
+         'and without a passive responder / fault plans / poll periods outside the class); non-trivial = traces checked by the C01 monitors and '
+         'stable windows checked by the C02 / C06 / C13 monitors',
+ 'trusted_base': ['harness medium harness/src/bus.rs (byte timing of SimulatorBus, collisions, fault plan) and its event loop',
+                  'hand model coq/Model/Telegram.v (decoder) used by the monitors to read the transmissions'],
+ 'technique': 'Coq-extracted trace monitors (proved sound w.r.t. declarative predicates) run on traces of N real stations; abstract '
+              'composition theorem C01_compose; link of the C13 hold-rule monitor to the abstract rotation bound',
+ 'partial_gap': 'the bus level is a TEST of the implementation under proved-sound monitors; the timed N-station composition is not proved',
+ 'level_text': 'PARTIAL / test: monitors proved sound, run on generated multi-station scenarios.',
+ 'level_note': 'temporary registration of the bus-level layer under C06',
+ 'design_ref': 'DESIGN.md sections 4 (C01, C02 global half, C06, C13) and 5',
+ 'assumptions': ['poll periods <= Tslot/4, distinct addresses, consistent parameters; C01/C02/C13: empty fault plan; the cold-start claim race and '
+                 'stale PHY buffers at set_online are excluded as in DESIGN section 5']}
